@@ -14,6 +14,9 @@ def dispatch(prop):
     if prop in ('C11', 'C12'):
         import p_text
         return p_text.check
+    if prop in ('C05', 'C08', 'C13'):
+        import p_tool
+        return p_tool.check
     if prop == 'C07':
         import p_dist
         return p_dist.check
